@@ -168,9 +168,13 @@ impl CaoLangObject {
 /// Tables may (indirectly) contain themselves; comparing or hashing such a table must not recurse
 /// forever. Tables nested deeper than this are neither compared nor hashed any further.
 const MAX_NESTING: u32 = 128;
+/// A table that contains the same table several times (or itself more than once) multiplies the
+/// work at every level; one comparison / hash visits at most this many tables.
+const MAX_VISITS: u32 = 100_000;
 
 thread_local! {
     static NESTING: std::cell::Cell<u32> = const { std::cell::Cell::new(0) };
+    static VISITS: std::cell::Cell<u32> = const { std::cell::Cell::new(0) };
 }
 
 struct NestingGuard;
@@ -178,7 +182,14 @@ struct NestingGuard;
 impl NestingGuard {
     fn enter() -> Option<Self> {
         NESTING.with(|n| {
-            if n.get() >= MAX_NESTING {
+            if n.get() == 0 {
+                VISITS.with(|v| v.set(0));
+            }
+            let visits = VISITS.with(|v| {
+                v.set(v.get().saturating_add(1));
+                v.get()
+            });
+            if n.get() >= MAX_NESTING || visits > MAX_VISITS {
                 None
             } else {
                 n.set(n.get() + 1);
